@@ -22,6 +22,7 @@ type Obligation struct {
 	Pos     string
 	Static  *bool // decided without solver (type facts etc.)
 	Note    string
+	Group   string // pieces of one split postcondition share a group: after two failed pieces the rest are not attempted
 	NoSlice bool // use every assumption (second attempt: infeasible paths are refuted by facts unrelated to the goal)
 	fullAssumes []*Term
 	// results
